@@ -333,6 +333,16 @@ func (s *transactionStore) Watch(ctx context.Context, ch chan<- configapi.Transa
 			s.mu.Unlock()
 		}()
 
+		// every exit path closes ch and keeps draining eventCh: the store's event loop may already hold an
+		// event for this listener and must never block on a watcher that has gone
+		closeAndDrain := func() {
+			close(ch)
+			go func() {
+				for range eventCh {
+				}
+			}()
+		}
+
 		if options.replay {
 			if options.transactionID != "" {
 				entry, err := s.transactions.Get(ctx, options.transactionID)
@@ -346,7 +356,7 @@ func (s *transactionStore) Watch(ctx context.Context, ch chan<- configapi.Transa
 					transaction.Index = configapi.Index(entry.Index)
 					transaction.Version = uint64(entry.Version)
 					if ctx.Err() != nil {
-						close(ch)
+						closeAndDrain()
 						return
 					}
 					ch <- configapi.TransactionEvent{
@@ -358,7 +368,7 @@ func (s *transactionStore) Watch(ctx context.Context, ch chan<- configapi.Transa
 				entries, err := s.transactions.List(ctx)
 				if err != nil {
 					log.Error(err)
-					close(ch)
+					closeAndDrain()
 					return
 				}
 				for {
@@ -371,7 +381,7 @@ func (s *transactionStore) Watch(ctx context.Context, ch chan<- configapi.Transa
 						continue
 					}
 					if ctx.Err() != nil {
-						close(ch)
+						closeAndDrain()
 						return
 					}
 					transaction := entry.Value
@@ -390,11 +400,7 @@ func (s *transactionStore) Watch(ctx context.Context, ch chan<- configapi.Transa
 			case event := <-eventCh:
 				ch <- event
 			case <-ctx.Done():
-				close(ch)
-				go func() {
-					for range eventCh {
-					}
-				}()
+				closeAndDrain()
 				return
 			}
 		}
